@@ -117,12 +117,18 @@ fn generate_family(id: &str, run_seed: u64, _thorough: bool) -> Plan {
     let full = GeneralOpts { scale, rich_payloads: false, consumer_faults: true, publisher_faults: true, deletes: true, push: false, stalls: true, big_batches: true, single_drain_consumer_share: 10 };
     match id {
         "C01" => {
-            if pick < 60 {
+            if pick < 58 {
                 f_general(run_seed, &full)
-            } else if pick < 72 {
+            } else if pick < 68 {
                 f_general(run_seed, &GeneralOpts { push: true, ..full })
-            } else if pick < 76 {
+            } else if pick < 72 {
                 f_lease(run_seed, &LeaseOpts { modacks: true, limits: true })
+            } else if pick < 74 {
+                // publishes inside a burst that fills the subscription's mailbox: every one of them arrives
+                f_burst_order(run_seed)
+            } else if pick < 76 {
+                // a request that reaches the subscription the instant a lease ends: the message is still redelivered
+                f_edge(run_seed)
             } else if pick < 80 {
                 // push subscriptions with failing / slow / silent endpoints, deleted and re-created
                 f_push(run_seed, false)
@@ -206,6 +212,9 @@ fn generate_family(id: &str, run_seed: u64, _thorough: bool) -> Plan {
                 f_edge(run_seed)
             } else if pick < 32 {
                 f_timer(run_seed)
+            } else if pick < 36 {
+                // a ModifyAckDeadline for a live delivery in the middle of a burst on the subscription
+                f_burst_edge(run_seed)
             } else {
                 f_lease(run_seed, &LeaseOpts { modacks: true, limits: false })
             }
